@@ -207,3 +207,21 @@ CHECKS["C10"] = dict(
     level_note="Trusted: Python ast; normalize_type / is_subclass_soft / isabstract / is_protocol meaning.",
     design_ref="DESIGN.md 3/C10",
 )
+
+CHECKS["C13"] = dict(
+    category="other",
+    technique="translation validation of emitted converters against an independent linking oracle (tier G: the converter "
+              "compilation pipeline is driven on enumerated model pairs / recipes, the emitted text is audited, no converter "
+              "runs), plan-to-expression isomorphism of the broaching generator, converter-template audit, shape rules over "
+              "the linking and planning functions for localisation",
+    text="Decides, for every enumerated configuration (source/destination dataclass models with a nested model, 0-3 extra "
+         "parameters, recipes of link / regex link / typed link / from_param / link_constant value and factory / "
+         "link_function / allow_unlinked_optional), that the generated model coercers build the destination field-wise from "
+         "exactly the sources the documented linking rules fix, that unlinkable configurations are refused, that every "
+         "enumerated broaching plan is rendered to an isomorphic expression with type-exact constants, and that the converter "
+         "template keeps the requested signature, context passing and stub wrapping. Universal over source values (the "
+         "emitted expression is audited, not evaluated); bounded over configurations (enumerated family).",
+    level_note="Trusted: Python ast; dataclass shape introspection; the oracle in sa/genprog.py (_link_oracle) written from "
+               "the property statement. Coercion of values (C14) and other model kinds (C17) are outside.",
+    design_ref="DESIGN.md 3/C13",
+)
